@@ -43,6 +43,9 @@ func (fc *FnCtx) calleeOf(cc *ssa.CallCommon) (name string, fn *ssa.Function, ki
 
 func (fc *FnCtx) call(in ssa.Instruction, cc *ssa.CallCommon, pos token.Pos) V {
 	name, fn, kind := fc.calleeOf(cc)
+	if kind != "builtin" {
+		fc.syncPoint()
+	}
 	if fc.c != nil && fc.c.AtCall != nil && !fc.dry {
 		for callee, cls := range fc.c.AtCall {
 			if callee == name || callee == shortName(name) {
@@ -56,10 +59,47 @@ func (fc *FnCtx) call(in ssa.Instruction, cc *ssa.CallCommon, pos token.Pos) V {
 				for i, a := range cc.Args {
 					env.vars[fmt.Sprintf("ARG%d", i+k)] = fc.val(a)
 				}
+				if kind == "funcvalue" {
+					env.vars["FN"] = fc.val(cc.Value) // the function value that is called
+				}
 				site := fc.srcText(pos, isKind[*ast.CallExpr])
 				for _, cl := range cls {
 					fc.oblige("atcall", shortName(name)+"."+cl.Label+"{"+site+"}", env.evalBool(cl.E), pos, fc.clauseProps(cl), cl.Text)
 				}
+			}
+		}
+	}
+	if fc.c != nil && !fc.dry && fc.curBlock != nil {
+		for h, body := range fc.loopBody {
+			ls := fc.loopSpec(h)
+			if ls == nil || len(ls.EachRound) == 0 || !(body[fc.curBlock] || h == fc.curBlock) {
+				continue
+			}
+			for i, er := range ls.EachRound {
+				if er.Callee != name && er.Callee != shortName(name) {
+					continue
+				}
+				env := fc.newEnv(fc.cur, fc.entry)
+				env.at = fc.curBlock
+				k := 0
+				if cc.IsInvoke() {
+					env.vars["ARG0"] = fc.val(cc.Value)
+					k = 1
+				}
+				for j, a := range cc.Args {
+					env.vars[fmt.Sprintf("ARG%d", j+k)] = fc.val(a)
+				}
+				if kind == "funcvalue" {
+					env.vars["FN"] = fc.val(cc.Value)
+				}
+				key := fmt.Sprintf("ghost:eachround:%d:%d", fc.loopOrd[h], i)
+				srt := fieldSort(sBool)
+				arr := fc.heapGet(fc.cur, key, srt)
+				fc.inBlockLocals = true
+				condT := env.evalBool(er.Cond.E)
+				fc.inBlockLocals = false
+				fc.heapSet(fc.cur, key, srt, sx("store", arr, "0", or(sx("select", arr, "0"), condT)))
+				fc.noteWrite(key)
 			}
 		}
 	}
@@ -297,6 +337,7 @@ func (fc *FnCtx) builtin(name string, cc *ssa.CallCommon, args []V, resTy types.
 		mt := m.Ty
 		dom, _, _, _ := fc.mapKeys(mt)
 		kt := fc.mapKeyTerm(mt, args[1])
+		fc.frameCheckMap(mt, m, pos)
 		d := fc.heapGet(fc.cur, dom, fc.keySort[dom])
 		fc.heapSet(fc.cur, dom, fc.keySort[dom], sx("store", d, m.T[0], sx("store", sx("select", d, m.T[0]), kt, "false")))
 		fc.noteWrite(dom)
@@ -728,6 +769,8 @@ func (fc *FnCtx) spawn(cc *ssa.CallCommon, pos token.Pos) {
 	arr := fc.heapGet(fc.cur, "ghost:spawned", fieldSort(sInt))
 	_ = arr
 	fc.spawned = append(fc.spawned, name)
+	fc.cur.spawned = true
+	fc.noteSpawnInLoops() // a loop that starts goroutines and goes round again: nothing is known at its head but its invariants
 	if c, ok := fc.e.specs.Contracts[name]; ok && !fc.dry {
 		var args []V
 		if cc.IsInvoke() {
